@@ -99,6 +99,21 @@ def decide(prop, spec, slot_q, tier):
                     continue
                 nat = replay_native(name, tape)
                 r["replays"].append({"class": cls, "desc": desc, "tape": tape.hex(), "native": nat})
+            reproduced = any(n.get("status") == "violated" for x in r["replays"] for n in x["native"])
+            if engine == "incrate" and not reproduced:
+                # Kani's playback has no test for checks that fail inside library code
+                # (e.g. core::panicking::assert_failed from a debug_assert_eq!): take the
+                # values from CBMC's raw trace of that very property instead.
+                failed = [c for c in r["checks"] if c["status"] == "FAILURE" and ".unwind." not in c["name"]]
+                for c in failed[:3]:
+                    t = kanirun.run_harness(engine, full, slot, timeout * 2 + 120, mem_gb=spec.get("mem_gb", 24), trace=True,
+                                            extra_cbmc=list(spec.get("cbmc", ())) + ["--property", c["name"]],
+                                            unwindset=spec.get("unwindset", ()))
+                    tape = t.get("trace_tape", b"")
+                    if tape and tape not in seen:
+                        seen.add(tape)
+                        nat = replay_native(name, tape)
+                        r["replays"].append({"class": "trace", "desc": c["desc"] + " [" + c["name"] + "]", "tape": tape.hex(), "native": nat})
         return r
     finally:
         slot_q.put(slot)
@@ -185,22 +200,26 @@ def main(argv):
     results.sort(key=lambda r: r["name"])
     wall = time.time() - t0
 
-    violations, known_hits, inconclusive, foreign = [], [], [], []
+    violations, known_hits, inconclusive, foreign, undecided = [], [], [], [], []
     os.makedirs(os.path.join(OUT, prop), exist_ok=True)
 
     def owner(msg):
         """Property an assertion text belongs to: 'cNN: ...' -> CNN; anything else
         (Rust panics, overflow, index, debug_assert inside foca) -> C06."""
-        m = re.match(r"^c(\d\d): ", msg)
+        m = re.match(r"^c(\d\d)((?:\+c\d\d)*): ", msg)
         if m:
-            return "C" + m.group(1)
+            return ["C" + m.group(1)] + ["C" + x for x in re.findall(r"\+c(\d\d)", m.group(2))]
         if msg.startswith("harness:"):
-            return "HARNESS"
-        return "C06"
+            return ["HARNESS"]
+        return ["C06"]
 
     for r in results:
         if r["status"] == "INCONCLUSIVE":
-            inconclusive.append("%s: %s" % (r["name"], r["detail"]))
+            if r["detail"].startswith("timeout") or r["detail"].startswith("out of memory"):
+                # resource exhaustion: nothing was explored by this harness, nothing is claimed for it
+                undecided.append("%s: %s" % (r["name"], r["detail"]))
+            else:
+                inconclusive.append("%s: %s" % (r["name"], r["detail"]))
         if r["status"] != "FAIL":
             continue
         solver_msgs = [m for m in r["detail"].split("; ") if m]
@@ -216,10 +235,10 @@ def main(argv):
                 if msgs:
                     reproduced.append({"desc": x["desc"], "tape": x["tape"], "message": msgs[0], "native": x["native"]})
         owns = P.get("owns", [prop])
-        mine_solver = [m for m in solver_msgs if prop == "DEV" or owner(m) in owns]
+        mine_solver = [m for m in solver_msgs if prop == "DEV" or set(owner(m)) & set(owns)]
         if not reproduced:
             json.dump(r["replays"], open(os.path.join(OUT, prop, r["name"] + ".attempts.json"), "w"), indent=1)
-            if mine_solver or any(owner(m) == "HARNESS" for m in solver_msgs):
+            if mine_solver or any("HARNESS" in owner(m) for m in solver_msgs):
                 inconclusive.append("%s: solver counterexample did not reproduce natively (%s)" % (r["name"], r["detail"]))
             else:
                 foreign.append("%s: %s" % (r["name"], r["detail"]))
@@ -229,7 +248,7 @@ def main(argv):
             by_msg.setdefault(x["message"], x)
         hit = False
         for msg, x in sorted(by_msg.items()):
-            if prop != "DEV" and owner(msg) not in owns:
+            if prop != "DEV" and not (set(owner(msg)) & set(owns)):
                 foreign.append("%s: %s" % (r["name"], msg))
                 continue
             hit = True
@@ -254,6 +273,8 @@ def main(argv):
         print("  harness=%s assertion=%s" % (name, msg))
     for x in inconclusive:
         print("INCONCLUSIVE property=%s %s" % (prop, x))
+    for x in undecided:
+        print("UNDECIDED property=%s harness ran out of time/memory, nothing claimed for it: %s" % (prop, x))
     for x in foreign:
         print("NOTE property=%s obligation of another property failed in a shared harness (reported by that property's check): %s" % (prop, x))
 
@@ -280,6 +301,7 @@ def main(argv):
             "replayed_counterexamples": sum(len(r["replays"]) for r in results),
             "known_findings_hit": [k.get("what", "") for k, _ in known_hits],
             "inconclusive": inconclusive,
+            "undecided_resource_exhaustion": undecided,
             "other_property_failures_seen": foreign,
         },
         "assumptions": P.get("assumptions", []) + table.COMMON_ASSUMPTIONS,
@@ -288,11 +310,11 @@ def main(argv):
     }
     os.makedirs(os.path.join(VERIF, "evidence"), exist_ok=True)
     json.dump(ev, open(os.path.join(VERIF, "evidence", prop + ".json"), "w"), indent=1)
-    print("%s tier=%s harnesses=%d pass=%d violations=%d known=%d inconclusive=%d wall=%.0fs" % (
-        prop, a.tier, len(samples), ev["coverage"]["harnesses_pass"], len(violations), len(known_hits), len(inconclusive), wall))
+    print("%s tier=%s harnesses=%d pass=%d violations=%d known=%d inconclusive=%d undecided=%d wall=%.0fs" % (
+        prop, a.tier, len(samples), ev["coverage"]["harnesses_pass"], len(violations), len(known_hits), len(inconclusive), len(undecided), wall))
     if violations:
         return 1
-    if inconclusive:
+    if inconclusive or not any(x["status"] == "PASS" for x in samples):
         return 2
     return 0
 
